@@ -1311,6 +1311,11 @@ func (c *Ctx) ruleWalkEveryKind(rule string) {
 
 // kindSignature: what the abstract run of h does when every Type() of a directive is the constant k.
 func (c *Ctx) kindSignature(h *Fn, enumT types.Type, k *types.Const) string {
+	return c.kindSignatureWith(h, enumT, k, nil)
+}
+
+// kindSignatureWith: kindSignature with a labelling of the returns of the caller's choice.
+func (c *Ctx) kindSignatureWith(h *Fn, enumT types.Type, k *types.Const, label func(f *Fn, e ast.Expr) string) string {
 	env := &constEnv{c: c, vars: map[types.Object]constant.Value{}}
 	env.leaf = func(f *Fn, e ast.Expr) (constant.Value, bool) {
 		call, ok := e.(*ast.CallExpr)
@@ -1325,6 +1330,9 @@ func (c *Ctx) kindSignature(h *Fn, enumT types.Type, k *types.Const) string {
 		return nil, false
 	}
 	env.retLabel = func(f *Fn, e ast.Expr) string {
+		if label != nil {
+			return label(f, e)
+		}
 		if isNil(f.Pkg, e) {
 			return "return nil"
 		}
